@@ -17,6 +17,7 @@
 -/
 import KavaVerif.Proofs.SwapKeeper
 import KavaVerif.Generated.C07Swap
+import KavaVerif.Proofs.TieFnSwap
 set_option linter.unusedSimpArgs false
 set_option linter.unusedVariables false
 
@@ -497,5 +498,114 @@ example : (kstep 9 exPrm exSt (.swapExact 3 0 100 1 380 ⟨10000000000000000⟩)
 example : (kstep 9 exPrm exSt (.swapForExact 3 1 450 0 100 ⟨10000000000000000⟩)).isOk = true := by decide
 /-- the slippage limit bites: the same swap with a zero limit and an unreachable minimum is refused -/
 example : (kstep 9 exPrm exSt (.swapExact 3 0 100 1 400 ⟨0⟩)).isOk = false := by decide
+
+/-! ## source tie (regenerated)
+
+    `GoFn.Swap.*` (Generated/FnSwap.lean) is regenerated on every run from the Go source of
+    x/swap/types/base_pool.go by the function translator (tools/extract/fn*.go): each Go function becomes a
+    `do` block in `Go.R` (ok / err / panic).  The theorems below say that every regenerated definition IS
+    the hand-written model function the theorems above are about, for ALL arguments (Go panic = the model's
+    `none`; `TieFn.swPool` maps the model's `Pool` to the generated `BasePool`; a method that assigns its
+    pointer receiver returns the receiver after the call first).  A source edit of one of these functions
+    re-opens exactly its obligation here.  Proofs: Proofs/TieFnSwap.lean. -/
+
+open KV.Go KV.TieFn in
+/-- `calculateInitialShares`: ⌊√(A·B)⌋.  Domain `0 ≤ A·B` (`big.Int.Sqrt` panics on a negative operand; the
+    model's helper `initialShares` is total and only ever applied to positive reserves). -/
+theorem C07_source_tie_calculateInitialShares (a b : Int) (h : 0 ≤ a * b) :
+    GoFn.Swap.calculateInitialShares_translated = true ∧
+    GoFn.Swap.calculateInitialShares a b = R.ok (initialShares a b) :=
+  swap_calculateInitialShares a b h
+
+open KV.Go KV.TieFn in
+theorem C07_source_tie_NewBasePool (a b : Int) :
+    GoFn.Swap.NewBasePool_translated = true ∧
+    GoFn.Swap.NewBasePool a b = (match newBasePool a b with | none => R.err | some p => R.ok (swPool p)) :=
+  swap_NewBasePool a b
+
+open KV.Go KV.TieFn in
+theorem C07_source_tie_NewBasePoolWithExistingShares (a b s : Int) :
+    GoFn.Swap.NewBasePoolWithExistingShares_translated = true ∧
+    GoFn.Swap.NewBasePoolWithExistingShares a b s
+      = (match newBasePoolWithShares a b s with | none => R.err | some p => R.ok (swPool p)) :=
+  swap_NewBasePoolWithExistingShares a b s
+
+open KV.Go KV.TieFn in
+theorem C07_source_tie_AddLiquidity (p : Pool) (da db : Int) :
+    GoFn.Swap.AddLiquidity_translated = true ∧
+    GoFn.Swap.AddLiquidity (swPool p) da db
+      = R.ofOption ((addLiquidity p da db).map fun r => (swPool r.1, r.2.1, r.2.2.1, r.2.2.2)) :=
+  swap_AddLiquidity p da db
+
+open KV.Go KV.TieFn in
+theorem C07_source_tie_ShareValue (p : Pool) (sh : Int) :
+    GoFn.Swap.ShareValue_translated = true ∧
+    GoFn.Swap.ShareValue (swPool p) sh = R.ofOption (shareValue p sh) :=
+  swap_ShareValue p sh
+
+open KV.Go KV.TieFn in
+theorem C07_source_tie_RemoveLiquidity (p : Pool) (sh : Int) :
+    GoFn.Swap.RemoveLiquidity_translated = true ∧
+    GoFn.Swap.RemoveLiquidity (swPool p) sh
+      = R.ofOption ((removeLiquidity p sh).map fun r => (swPool r.1, r.2.1, r.2.2)) :=
+  swap_RemoveLiquidity p sh
+
+open KV.Go KV.TieFn in
+/-- the receiver is not read by the Go function (any `g`) -/
+theorem C07_source_tie_calculateOutputForExactInput (g : GoFn.Swap.BasePool) (x inR outR : Int) (fee : Dec) :
+    GoFn.Swap.calculateOutputForExactInput_translated = true ∧
+    GoFn.Swap.calculateOutputForExactInput g x inR outR fee = R.ofOption (outputForExactInput x inR outR fee) :=
+  swap_calculateOutputForExactInput g x inR outR fee
+
+open KV.Go KV.TieFn in
+/-- the receiver is not read by the Go function (any `g`) -/
+theorem C07_source_tie_calculateInputForExactOutput (g : GoFn.Swap.BasePool) (out outR inR : Int) (fee : Dec) :
+    GoFn.Swap.calculateInputForExactOutput_translated = true ∧
+    GoFn.Swap.calculateInputForExactOutput g out outR inR fee
+      = R.ofOption (inputForExactOutput out outR inR fee) :=
+  swap_calculateInputForExactOutput g out outR inR fee
+
+open KV.Go KV.TieFn in
+theorem C07_source_tie_assertInvariantAndUpdateReserves (p : Pool) (newA feeA newB feeB : Int) :
+    GoFn.Swap.assertInvariantAndUpdateReserves_translated = true ∧
+    GoFn.Swap.assertInvariantAndUpdateReserves (swPool p) newA feeA newB feeB
+      = R.ofOption ((assertInvariantAndUpdate p newA feeA newB feeB).map swPool) :=
+  swap_assertInvariantAndUpdateReserves p newA feeA newB feeB
+
+open KV.Go KV.TieFn in
+theorem C07_source_tie_SwapExactAForB (p : Pool) (x : Int) (fee : Dec) :
+    GoFn.Swap.SwapExactAForB_translated = true ∧
+    GoFn.Swap.SwapExactAForB (swPool p) x fee
+      = R.ofOption ((swapExactAForB p x fee).map fun r => (swPool r.1, r.2.1, r.2.2)) :=
+  swap_SwapExactAForB p x fee
+
+open KV.Go KV.TieFn in
+theorem C07_source_tie_SwapExactBForA (p : Pool) (x : Int) (fee : Dec) :
+    GoFn.Swap.SwapExactBForA_translated = true ∧
+    GoFn.Swap.SwapExactBForA (swPool p) x fee
+      = R.ofOption ((swapExactBForA p x fee).map fun r => (swPool r.1, r.2.1, r.2.2)) :=
+  swap_SwapExactBForA p x fee
+
+open KV.Go KV.TieFn in
+theorem C07_source_tie_SwapAForExactB (p : Pool) (x : Int) (fee : Dec) :
+    GoFn.Swap.SwapAForExactB_translated = true ∧
+    GoFn.Swap.SwapAForExactB (swPool p) x fee
+      = R.ofOption ((swapAForExactB p x fee).map fun r => (swPool r.1, r.2.1, r.2.2)) :=
+  swap_SwapAForExactB p x fee
+
+open KV.Go KV.TieFn in
+theorem C07_source_tie_SwapBForExactA (p : Pool) (x : Int) (fee : Dec) :
+    GoFn.Swap.SwapBForExactA_translated = true ∧
+    GoFn.Swap.SwapBForExactA (swPool p) x fee
+      = R.ofOption ((swapBForExactA p x fee).map fun r => (swPool r.1, r.2.1, r.2.2)) :=
+  swap_SwapBForExactA p x fee
+
+open KV.Go KV.TieFn in
+/-- `assertSlippageWithinLimit` (x/swap/keeper/swap.go): `ErrSlippageExceeded` iff `¬ slippageOk` -/
+theorem C07_source_tie_assertSlippageWithinLimit (priceChange slip : Dec) :
+    GoFn.Swap.assertSlippageWithinLimit_translated = true ∧
+    GoFn.Swap.assertSlippageWithinLimit priceChange slip
+      = (if slippageOk priceChange slip then R.ok () else R.err) :=
+  swap_assertSlippageWithinLimit priceChange slip
 
 end KV.SW
